@@ -120,11 +120,11 @@ func buildCorpus(thorough bool) []corpusCase {
 	add(rawCase("p2p.merkleblock", cat(headerBytes(false), mustHex("ffffffffffffffffffffffffffffffffffff")))) // fix 6ed1937
 	add(rawCase("p2p.merkleblock", cat(headerBytes(false), mustHex("fffffffffffffffffffe00000004"))))
 	add(rawCase("p2p.merkleblock", cat(headerBytes(false), mustHex("ffffffffffffffffff00ffffffffffffffffff"))))
-	add(rawCase("consensus", mustHex("00 05000000 00 00 0000000000000000 03 fe00000001"))) // fix 74ce462
-	add(rawCase("consensus", mustHex("00 05000000 00 00 0000000000000000 04 fe00000001")))
-	add(rawCase("consensus", mustHex("41 05000000 00 00 fe00000001")))
-	add(rawCase("consensus", mustHex("41 05000000 00 00 00 00 00 fe00000001")))
-	add(rawCase("consensus", mustHex("41 05000000 00 00 00 00 00 00 fe00000001")))
+	add(rawCase("consensus0", mustHex("00 05000000 00 00 0000000000000000 03 fe00000001"))) // fix 74ce462
+	add(rawCase("consensus0", mustHex("00 05000000 00 00 0000000000000000 04 fe00000001")))
+	add(rawCase("consensus0", mustHex("41 05000000 00 00 fe00000001")))
+	add(rawCase("consensus0", mustHex("41 05000000 00 00 00 00 00 fe00000001")))
+	add(rawCase("consensus0", mustHex("41 05000000 00 00 00 00 00 00 fe00000001")))
 	// --- uncapped arrays that are still in the tree (known finding aer-uncapped-array) ---
 	add(rawCase("aer", cat(make([]byte, 32), mustHex("01 01 0000000000000000 00 fe00000001"))))
 	add(rawCase("aer", cat(make([]byte, 32), mustHex("01 81 0000000000000000 00 00 00 fe00000001"))))
